@@ -914,6 +914,7 @@ _TARGET_ACTIVITY = {
     "ReserveBase": ("ReserveBase",),
     "ChargeBase": ("ChargingBase",),
     "Reposition": ("Repositioning",),
+    "Pool": ("ServicingPoolingTrip", "DispatchPoolingTrip"),
 }
 
 
@@ -969,7 +970,14 @@ def c09_atomicity(ctx: Ctx) -> List[Violation]:
     for ev in ctx.world.atomic_menu:
         kind, vid = ev[1], ev[2]
         i = mk_instruction(ev)
-        s2 = apply_instructions(s, env, (i,))
+        try:
+            s2 = apply_instructions(s, env, (i,))
+        except Exception as e:
+            # an instruction that cannot be carried out is REJECTED; one that raises takes the whole step (and with it the
+            # instructions of every other vehicle) down
+            ctx.world.env.reporter.take()
+            out.append(Violation("C09", "instruction_raised", (kind, type(e).__name__), f"{kind} {ev[3:]} for {vid} raised {type(e).__name__}: {e} -- instead of being rejected (the whole step, with the other vehicles' instructions, is lost)"))
+            continue
         ctx.world.env.reporter.take()
         v0, v2 = s.vehicles.get(vid), s2.vehicles.get(vid)
         if v0 is None:
